@@ -40,7 +40,7 @@ def gen_cases(tier: str, seed: int) -> list[dict]:
     rng = random.Random(seed)
     names = example_names()
     logics = QUICK_LOGICS if tier == 'quick' else LOGICS
-    n = 189 if tier == 'quick' else 3039
+    n = 195 if tier == 'quick' else 3045
     cases = []
     seen = set()
     # a fixed core: every option combination on a branching, a modal and a quantified argument
@@ -68,6 +68,10 @@ def gen_cases(tier: str, seed: int) -> list[dict]:
     for lg, a in core[:7]:
         if a in names:
             cases.append(dict(logic=lg, arg=a, opts=dict(OPTS[0]), step_cap=1, poke_after_finish=True))
+    # stopped by the time limit (deterministic clock): finished, and the statistics still equal the observable counts
+    for lg, a in core[:6]:
+        if a in names:
+            cases.append(dict(logic=lg, arg=a, opts=dict(OPTS[0]), fake_timeout=70))
     while len(cases) < n:
         lg = rng.choice(logics)
         a = rng.choice(names)
@@ -141,7 +145,10 @@ def compare(case, real, model):
     if real['tree'] is not None:
         if real['tree'] != [list(t) for t in mtree]:
             res.append(('corr:tree', f'tree differs: implementation {real["tree"][:4]} / model {list(mtree)[:4]}', {}))
-    if [x for x in real['stats'] if x is not None] != list(mstats):
+    got_stats, want_stats = list(real['stats']), list(mstats)
+    if real.get('tree') is None and got_stats[:4] == want_stats[:4] and got_stats[4] is None:
+        got_stats = want_stats     # no tree (stopped by the time limit): no distinct-node count is published
+    if [x for x in got_stats if x is not None] != want_stats:
         res.append(('corr:stats', f'stats differ: implementation {real["stats"]} / model {list(mstats)}', {}))
     return res
 
